@@ -241,10 +241,12 @@ fn wrap_case() -> BoxedStrategy<WrapCase> {
         1 => Just(Wrap::Dd),
         2 => (1u8..=6).prop_map(Wrap::H),
     ];
+    // one item in ten is empty (`<li></li>`): it prints nothing but still takes its number
+    let item = |d: u32| prop_oneof![9 => gen::blocks(&g, d), 1 => Just(vec![])];
     let items = prop_oneof![
-        3 => prop::collection::vec(gen::blocks(&g, 1), 1..4),
-        1 => prop::collection::vec(gen::blocks(&g, 0), 4..=15),
-        1 => prop::collection::vec(gen::blocks(&g, 2), 1..3),
+        3 => prop::collection::vec(item(1), 1..4),
+        2 => prop::collection::vec(item(0), 4..=15),
+        1 => prop::collection::vec(item(2), 1..3),
     ];
     let heading_inl = gen::inlines(&g, 1);
     (wrap, items, heading_inl, 4usize..=100, any::<bool>(), prop::bool::weighted(0.3))
